@@ -3,6 +3,7 @@ from vmon import family as F
 from vmon import gen
 from vmon.model import check_log
 from vmon.run import Scenario
+from props import c10
 
 META = {
     "level": "exploration",
@@ -33,6 +34,9 @@ def make_case(rng, i):
     prof = dict(PROFILE)
     prof["async_mode"] = rng.choice(["none", "none", "none", "all", "half"])
     spec = gen.gen_spec(rng, prof)
+    typed = rng.random() < 0.4
+    if typed:
+        c10.assign_values(rng, spec)     # falsy / typed state values (0, '', enum members, tuples) travel with the copy
     listeners = [p for p in spec["providers"] if p not in ("sm", "model")]
     late = [l for l in listeners if rng.random() < 0.3]
     # late listeners must keep the engine choice stable (W7 is C12's): make them sync on sync machines
@@ -98,7 +102,7 @@ def make_case(rng, i):
                             "val": st.get("val"), "args": st.get("args", []), "kwargs": st.get("kwargs", {})})
     steps += out
     driver = rng.choice(["sync", "inloop"]) if spec["any_async"] else "sync"
-    return {"scenario": Scenario(spec, steps, driver), "how": how, "copy_class": "before-activation" if before_activation else
+    return {"scenario": Scenario(spec, steps, driver), "how": how, "value_of": c10.make_value_of(spec), "copy_class": "before-activation" if before_activation else
             ("start" if copy_at == 0 else ("end" if copy_at == len(hist) else "middle")), "bound": bound, "late": bool(late)}
 
 
@@ -116,7 +120,7 @@ def extra_check(case, run, log, ck, fault):
     other_log = getattr(run, "other_log", None)
     if not other_log:
         return None
-    rej, ck2 = check_log(case["scenario"].spec, other_log)
+    rej, ck2 = check_log(case["scenario"].spec, other_log, value_of=case.get("value_of"))
     case["_counters"] = {"other_instance_events": ck2.stats["events_executed"] + ck2.stats["not_allowed"] + ck2.stats["ignored"]}
     if rej is not None:
         return ("C17.clone-behaviour:" + rej.rule, "the clone deviates from the reference after the copy point: " + rej.detail, None)
@@ -140,4 +144,4 @@ def run_shard(desc):
 
 
 def replay(witness):
-    return F.replay_case(witness, owns)
+    return F.replay_case(witness, owns, value_of=c10.make_value_of(witness["witness"]["scenario"]["spec"]))
